@@ -1,6 +1,6 @@
 (* C10 -- List markers determine list nesting (partial: see MANIFEST level text). *)
 From Rimu Require Import Base Unicode Regex RegexAnalysis RegexParse Str Types Tables Guards State Inline Block
-  Frame FrameBlock FrameInst OptionsLemmas MiscLemmas MoreLemmas Plain TableFacts.
+  Frame FrameBlock FrameInst OptionsLemmas MiscLemmas MoreLemmas Plain TableFacts RegexSem MatchLemmas Placeholder TaintInline NoRaise NoRaiseTop Taint.
 
 (* bulleted, numbered and definition items produce ul/ol/dl with li or dt/dd (the generated list table) *)
 Theorem C10_list_table :
@@ -30,3 +30,30 @@ Example C10_ex :
   | Ok (html, _) => str_eqb html ($"<ul><li>a<ul><li>b<ol><li>c</li></ol></li><li>d</li></ul></li><li>e</li></ul><p>p</p>")
   | _ => false end = true.
 Proof. vm_compute. reflexivity. Qed.
+
+(* the stack of open list markers: renderList returns with the stack it was entered with (the marker it pushes is popped
+   when the list closes, whatever child lists, attached blocks and nested documents are rendered in between), and an item
+   it hands back to its caller carries the marker of a list that is still open there: "an item whose marker is already open
+   continues (or returns to) that list, a new marker opens a child list" -- for every fuel, item, reader and good session *)
+Theorem C10_stack_discipline : forall fuel m n L it rd s, SokG L s -> item_ok it -> rdok rd ->
+  match renderList fuel (doc_render m) n it rd s with
+  | Ok (r, s') => s_listids s' = L /\ (forall it', snd (fst r) = Some it' -> In (it_id it') L)
+  | _ => True
+  end.
+Proof. exact renderList_stack. Qed.
+Print Assumptions C10_stack_discipline.
+
+(* from the empty stack of lists.render nothing is handed back: the whole list structure is closed when it returns *)
+Theorem C10_top_level_list_closed : forall fuel m n it rd s, SokG [] s -> item_ok it -> rdok rd ->
+  match renderList fuel (doc_render m) n it rd s with
+  | Ok (r, s') => s_listids s' = [] /\ snd (fst r) = None
+  | _ => True
+  end.
+Proof. exact renderList_top. Qed.
+Print Assumptions C10_top_level_list_closed.
+
+(* the items the theorems speak about are the ones matchItem produces *)
+Theorem C10_items_well_formed : forall rd s, rdok rd ->
+  match matchItem rd s with Ok ((Some it, _), _) => item_ok it | _ => True end.
+Proof. exact matchItem_items. Qed.
+Print Assumptions C10_items_well_formed.
